@@ -82,6 +82,8 @@ class ProgGen:
         self.funcs: list[dict] = []      # visible module-level functions
         self.feats: dict[str, int] = {} if features is None else features
         self.scoped_funcs: list[dict] = []
+        self.force: set[str] = set()
+        self.force_callee = None
 
     # ------------------------------------------------------------------ ids / features
     def wire(self, ty):
@@ -372,6 +374,23 @@ class ProgGen:
             return False
         return True
 
+    def stmt_callind(self, rg: Region):
+        c = [w for w in rg.avail() if w["ty"][0] == "func" and not w["ty"][3]]
+        if not c:
+            return False
+        f = self.r.choice(c)
+        ws = []
+        for t in f["ty"][1]:
+            w = self.find(rg, t, exclude=[f["id"], *[x["id"] for x in ws if lin(x["ty"])]])
+            if w is None and constable(t):
+                w = self.load_const(rg, t)
+            if w is None:
+                return False
+            ws.append(w)
+        self.op(rg, ["CallIndirect"], [f, *ws], list(f["ty"][2]))
+        self.feat("call-indirect")
+        return True
+
     def pick_distinct(self, rg: Region, n, copy_only=False):
         """n wires; a linear wire at most once"""
         pool = [w for w in rg.avail() if not lin(w["ty"]) or (w in rg.local and not copy_only)]
@@ -403,15 +422,37 @@ class ProgGen:
                         if self.r.random() < 0.3 else self.ctype(2))
         return True
 
-    def stmt_call(self, rg: Region):
+    def args_for(self, rg: Region, tys_):
+        """wires of the given types: existing ones, or freshly loaded constants for copyable types"""
+        ws = self.pick_typed(rg, tys_)
+        if ws is not None:
+            return ws
+        ws, used = [], set()
+        for t in tys_:
+            c = [w for w in rg.avail() if w["ty"] == t and not (lin(t) and (w["id"] in used or w not in rg.local))]
+            if c:
+                w = self.r.choice(c)
+            elif not lin(t) and constable(t):
+                w = self.load_const(rg, t)
+            elif t == Q:
+                (w,) = self.op(rg, ["ext", "QAlloc"], [], [Q])
+            else:
+                return None
+            if lin(t):
+                used.add(w["id"])
+            ws.append(w)
+        return ws
+
+    def stmt_call(self, rg: Region, f=None, arity=None):
         fs = self.callable_funcs(rg)
-        if not fs:
-            return False
-        f = self.r.choice(fs)
-        inst_ins, inst_outs, targs = self.instantiate(rg, f)
+        if f is None:
+            if not fs:
+                return False
+            f = self.r.choice(fs)
+        inst_ins, inst_outs, targs = self.instantiate(rg, f, arity)
         if inst_ins is None:
             return False
-        ws = self.pick_typed(rg, inst_ins)
+        ws = self.args_for(rg, inst_ins)
         if ws is None:
             return False
         st = {"s": "call", "id": self.nid(), "f": f["id"], "args": [self.take(rg, w) for w in ws]}
@@ -455,7 +496,7 @@ class ProgGen:
             return []
         return [f for f in self.funcs + self.scoped_funcs if f["outs"] is not None]
 
-    def instantiate(self, rg: Region, f):
+    def instantiate(self, rg: Region, f, arity=None):
         if not f["tparams"]:
             return f["ins"], f["outs"], []
         targs = []
@@ -465,7 +506,7 @@ class ProgGen:
                 t = self.r.choice(c) if c and self.r.random() < 0.7 else self.ctype(1)
                 targs.append(["t", t])
             else:  # ["L", ["T", b]]
-                n = self.r.choice([0, 1, 2, 3])
+                n = self.r.choice([0, 1, 2, 3]) if arity is None else arity
                 targs.append(["seq", [["t", self.ctype(1) if p[1][1] == "C" or self.r.random() < 0.6 else Q]
                                       for _ in range(n)]])
         return subst_row(f["ins"], targs), subst_row(f["outs"], targs), targs
@@ -512,7 +553,11 @@ class ProgGen:
 
     def statement(self, rg: Region, depth):
         r = self.r
-        choices = ["op"] * 8 + ["load"] * 2 + ["call"] * 2 + ["loadfn", "order", "order_io"]
+        choices = ["op"] * 8 + ["load"] * 2 + ["order", "order_io"]
+        if self.callable_funcs(rg):
+            choices += ["call"] * 5 + ["loadfn"] * 2
+        if any(w["ty"][0] == "func" for w in rg.avail()):
+            choices += ["callind"] * 2
         if depth < self.max_depth and self.budget > 6:
             choices += ["dfg", "cond", "loop", "cfg", "dfg", "cond"]
             if not rg.closed:
@@ -525,7 +570,11 @@ class ProgGen:
         elif k == "load":
             self.stmt_load(rg)
         elif k == "call":
-            self.stmt_call(rg)
+            for _ in range(3):
+                if self.stmt_call(rg):
+                    return
+        elif k == "callind":
+            self.stmt_callind(rg)
         elif k == "loadfn":
             self.stmt_loadfn(rg)
         elif k == "order":
@@ -785,6 +834,9 @@ class ProgGen:
             f["md"] = self.metadata()
         ch = Region("func", outer=[], closed=False)
         ch.local = list(params)
+        if self.force_callee is not None and parent == "root" and recursion:
+            # quota: a call to a row-polymorphic declaration at an arity different from the body's
+            self.stmt_call(ch, f=self.force_callee, arity=r.choice([0, 2, 3]))
         if declare:
             goal = self.goal(ch)
             f["declared"] = goal
@@ -811,9 +863,9 @@ class ProgGen:
             self.feat("poly-funcdefn")
         return f
 
-    def gen_decl(self, name):
+    def gen_decl(self, name, k=None):
         r = self.r
-        k = r.choice(["mono", "poly", "rowpoly"])
+        k = k or r.choice(["mono", "poly", "rowpoly"])
         f = {"name": name, "id": self.nid(), "decl": True, "tparams": [], "parent": "root"}
         if k == "mono":
             f["ins"], f["outs"] = self.mixed_row(1, 2), self.mixed_row(1, 2)
@@ -835,6 +887,10 @@ class ProgGen:
         r = self.r
         defs = []
         n = r.randint(1, 4)
+        if "rowpoly-call" in self.force:
+            d = self.gen_decl("rowdecl", k="rowpoly")
+            defs.append({"d": "decl", "func": d})
+            self.force_callee = d
         for i in range(n):
             if self.budget <= 0 and defs:
                 break
@@ -901,11 +957,13 @@ class _TypedProgGen(ProgGen):
         return w
 
 
-def gen_program(rng, kind=None, max_depth=3, budget=40):
-    """A program AST (dict) with its feature vector; kind in module|dfg|func|cfg|cond|loop."""
+def gen_program(rng, kind=None, max_depth=3, budget=40, force=()):
+    """A program AST (dict) with its feature vector; kind in module|dfg|func|cfg|cond|loop.
+    force: quota features to build in by construction ("rowpoly-call": module programs only)."""
     kind = kind or rng.choice(["module"] * 6 + ["dfg", "func", "cfg", "cond", "loop"])
     for attempt in range(30):
         g = _TypedProgGen(rng, max_depth=max_depth, budget=budget)
+        g.force = set(force)
         p = g.module() if kind == "module" else g.standalone(kind)
         if p is not None:
             p["kind"] = kind
